@@ -27,6 +27,16 @@ reg('C11', True,
     'heap order over histories as an inductive proof, comparator behaviour.',
     'clang 14 AST/CFG of the explicit instantiation BinaryHeap<int> (+ every instantiation in the library, thorough tier)',
     'typestate over clang CFG (pending-restoration automaton), paired-update rule, linear normal form of index arithmetic')
+reg('C18', True,
+    'Decides, for all inputs, the finite-domain and structural clauses: the termination flag is write-once-true; eval() '
+    'equals flag or (period>0 ? cached : predicate) on the full abstract domain; or/and/always/never predicates have the '
+    'right truth tables with by-value captures; the iteration condition increments once and returns old+1>max on every '
+    'ordering; timed predicates compare a steady clock (compile-time is_steady witness) against an end point computed '
+    'once from the duration argument and captured by value, direction now>=end, interval clamped; solve(double) passes '
+    'its own duration; exact-solution pass-through; cost-convergence terminate() only under window-full and both strict '
+    'threshold tests with thresholds from the previous average. Not decided: moving-average arithmetic, real-time lag.',
+    'clang 14 AST/CFG of four units; std::function/std::thread/std::atomic semantics are trusted',
+    'finite-domain abstract evaluation of decision trees + who-may-write + type-level witness (-fsyntax-only)')
 for _p in ['C01', 'C02', 'C03', 'C04', 'C06', 'C07', 'C08', 'C09', 'C10', 'C12', 'C13', 'C14', 'C15', 'C16',
-           'C17', 'C18', 'C19', 'C20']:
+           'C17', 'C19', 'C20']:
     reg(_p, False, '', '', '', PENDING)
